@@ -137,7 +137,7 @@ def job(g, fn, tier, rows=None):
             return v
     res.functions.add(t + "_" + fn)
     if rows is None or 0 in rows:
-        res.validated += h.validate(t + "_" + fn, sampler, n * n, 10)
+        res.validated += h.validate(t + "_" + fn, c02.tangent_sampler(g, well_conditioned=True), n * n, 10)
     from symx import engine
     ex = engine.Explorer(h.mod, assumptions=asm, max_paths=64)
     paths = ex.explore(t + "_" + fn, a, n * n)
